@@ -95,8 +95,10 @@ def build_track(recipe):
     t = Track(build_instrument(recipe.get("instrument")))
     if recipe.get("name") is not None:
         t.name = recipe["name"]
-    for b in recipe["bars"]:
-        t.add_bar(build_bar(b))
+    bars = [build_bar(b) for b in recipe["bars"]]
+    # "order": the track is made of these Bar objects in this order -- one object may stand at several places
+    for i in recipe.get("order", range(len(bars))):
+        t.add_bar(bars[i])
     return t
 
 
